@@ -92,7 +92,7 @@ pub fn replay(case: &Value) -> Option<(String, String)> {
 pub fn run(tier: Tier) -> ! {
     let chk = Check::new("C02", tier, "exploration");
     quiet_panics();
-    let max_n = tier.pick(9, 12);
+    let max_n = tier.pick(11, 15);
     for n in 1..=max_n {
         let vs = gen::vectors(3, n - 1);
         vs.par_iter().for_each(|labels| {
